@@ -134,14 +134,21 @@ class C08(Check):
                 # merge delivers the same multiset
                 import rx
                 from ..common import subscribe
-                cold = subscribe(rx.from_(items).pipe(*progs.build([tee] + after)), Snap())
-                out.observed['cold_source_runs_compared'] += 1
-                a, b = [norm(v) for v in cold.out], [norm(v) for v in got.out]
-                if join == 'merge':
-                    a, b = sorted(a, key=repr), sorted(b, key=repr)
-                if cold.err is not None or not cold.done or a != b:
-                    return out.fail('tee-on-a-cold-source-differs-from-the-pushed-run', join=join, error=repr(cold.err), done=cold.done,
-                                    cold=cold.out[:12], pushed=got.out[:12], items=items)
+                def sync_source(observer, scheduler=None):
+                    # a cold source that emits from inside its subscribe function: every branch must be subscribed before
+                    # the source is connected
+                    for x in items:
+                        observer.on_next(x)
+                    observer.on_completed()
+                for kind, source in (('rx.from_', rx.from_(items)), ('rx.create emitting while it is subscribed', rx.create(sync_source))):
+                    cold = subscribe(source.pipe(*progs.build([tee] + after)), Snap())
+                    out.observed['cold_source_runs_compared'] += 1
+                    a, b = [norm(v) for v in cold.out], [norm(v) for v in got.out]
+                    if join == 'merge':
+                        a, b = sorted(a, key=repr), sorted(b, key=repr)
+                    if cold.err is not None or not cold.done or a != b:
+                        return out.fail('tee-on-a-cold-source-differs-from-the-pushed-run', source=kind, join=join, error=repr(cold.err), done=cold.done,
+                                        cold=cold.out[:12], pushed=got.out[:12], items=items)
             return out
         # keyed: lifetimes of the enclosing context
         node = list(case['ctx_node'])
